@@ -259,10 +259,17 @@ def main(pid, tier, seed, what):
         results.append(run_ops(d, k, c["instance"], c["ops"]))
     results += [r for r in lib.pmap(run_case, [(d, 1000 + k, inst, seed, nops) for k, inst in enumerate(gen)]) if r]
     nstates = sum(len(r["chk"]) for r in results)
+    hist = {}
+    for r in results:
+        for l in r["oplines"]:
+            p = l.split()
+            out = p[p.index("->") + 1] if "->" in p else "?"
+            key = "%s->%s" % (p[2], out)
+            hist[key] = hist.get(key, 0) + 1
     for r in results:
         r["inst_full"] = r["inst"]
     return solvefam.conclude(pid, tier, seed, t0, proof, results, what, failures_fn=failures,
-                             extra_cov={"states_checked": nstates,
+                             extra_cov={"states_checked": nstates, "operation_outcomes": hist,
                                         "operations": sum(len(r["oplines"]) for r in results),
                                         "panic_outcomes": sum(1 for r in results for l in r["oplines"] if "-> PANIC" in l)},
                              features_fn=features)
